@@ -262,6 +262,13 @@ func GetsockoptIPMreq(fd, level, opt int) (*IPMreq, error) {
 }
 
 // Recvfrom delivers one whole datagram (1..65507 bytes, truncated to len(p)) with its source address.
+// Flags of recvfrom the model understands (Linux values). MSG_TRUNC makes recvfrom report the REAL length of
+// the datagram even when it was longer than the buffer; any other flag is outside the model.
+const (
+	MSG_PEEK  = 0x2
+	MSG_TRUNC = 0x20
+)
+
 func Recvfrom(fd int, p []byte, flags int) (int, Sockaddr, error) {
 	if !vkernel.IsOpen(fd) {
 		return -1, nil, EBADF
@@ -291,6 +298,9 @@ func Recvfrom(fd int, p []byte, flags int) (int, Sockaddr, error) {
 	port := int(vf.Uint16("from.port"))
 	f.LastFrom, f.LastPort = from, port
 	f.Recvs++
+	if flags&MSG_TRUNC != 0 {
+		return dl, &SockaddrInet4{Port: port, Addr: from}, nil
+	}
 	return n, &SockaddrInet4{Port: port, Addr: from}, nil
 }
 
